@@ -107,8 +107,8 @@ OBS = {
     "edges_unique_length": lambda m, q: m.edges_unique_length,
     "edges_unique_inverse": lambda m, q: m.edges_unique_inverse,
     "edges_sorted": lambda m, q: m.edges_sorted,
-    "edges_sparse": lambda m, q: m.edges_sparse.toarray(),
-    "faces_sparse": lambda m, q: m.faces_sparse.toarray(),
+    "edges_sparse": lambda m, q: _coo(m.edges_sparse),
+    "faces_sparse": lambda m, q: _coo(m.faces_sparse),
     "faces_unique_edges": lambda m, q: m.faces_unique_edges,
     "face_adjacency": lambda m, q: m.face_adjacency,
     "face_adjacency_edges": lambda m, q: m.face_adjacency_edges,
@@ -120,7 +120,7 @@ OBS = {
     "face_adjacency_span": lambda m, q: m.face_adjacency_span,
     "face_neighborhood": lambda m, q: m.face_neighborhood,
     "face_angles": lambda m, q: m.face_angles,
-    "face_angles_sparse": lambda m, q: m.face_angles_sparse.toarray(),
+    "face_angles_sparse": lambda m, q: _coo(m.face_angles_sparse),
     "vertex_defects": lambda m, q: m.vertex_defects,
     "vertex_degree": lambda m, q: m.vertex_degree,
     "vertex_faces": lambda m, q: m.vertex_faces,
@@ -230,6 +230,15 @@ def same(a, b, tol, path=""):
             i = int(np.argmax(d - lim))
             return f"{path}: max |diff| {float(d.max()):.3e} (value {float(b[fin][i]):.6g}) > tol"
     return None
+
+
+def _coo(sp):
+    """A sparse matrix as canonical (shape, row, col, value) arrays with duplicates summed: the dense form of a 20 000-face mesh
+    is gigabytes (the thorough soak spent 13 minutes of kernel time allocating it)."""
+    c = sp.tocoo(copy=True)  # (never touch the matrix the mesh has memoised)
+    c.sum_duplicates()
+    order = np.lexsort((c.col, c.row))
+    return {"shape": list(c.shape), "row": np.asarray(c.row)[order].astype(np.int64), "col": np.asarray(c.col)[order].astype(np.int64), "data": np.asarray(c.data)[order].astype(np.float64)}
 
 
 def observe(m, name, q, rs):
